@@ -7,6 +7,7 @@ import (
 // simulated clock: base + now. Timers are scheduler choices (see sched.go).
 var timeBase = time.Date(2030, 1, 1, 0, 0, 0, 0, time.UTC)
 
+//go:norace
 func TimeNow() time.Time {
 	if s := world; s != nil {
 		return timeBase.Add(time.Duration(s.now))
@@ -14,6 +15,7 @@ func TimeNow() time.Time {
 	return time.Now()
 }
 
+//go:norace
 func TimeAfter(d time.Duration) <-chan time.Time {
 	s := world
 	if s == nil {
@@ -37,6 +39,7 @@ func (w *sleepWaiter) blocked(*Sched) bool { return !w.fired }
 //go:norace
 func (w *sleepWaiter) meta() bool { return false }
 
+//go:norace
 func TimeSleep(d time.Duration) {
 	s := world
 	if s == nil {
@@ -57,6 +60,7 @@ type Timer struct {
 	rt *time.Timer
 }
 
+//go:norace
 func NewTimer(d time.Duration) *Timer {
 	s := world
 	if s == nil {
@@ -69,6 +73,7 @@ func NewTimer(d time.Duration) *Timer {
 	return t
 }
 
+//go:norace
 func (t *Timer) arm(s *Sched, d time.Duration) {
 	t.t = s.addTimer(int64(d), func(now int64) {
 		t.t = nil
@@ -83,6 +88,7 @@ func (t *Timer) arm(s *Sched, d time.Duration) {
 	})
 }
 
+//go:norace
 func TimeAfterFunc(d time.Duration, f func()) *Timer {
 	s := world
 	if s == nil {
@@ -93,6 +99,7 @@ func TimeAfterFunc(d time.Duration, f func()) *Timer {
 	return t
 }
 
+//go:norace
 func (t *Timer) Stop() bool {
 	if t.rt != nil {
 		return t.rt.Stop()
@@ -106,6 +113,7 @@ func (t *Timer) Stop() bool {
 	return ok
 }
 
+//go:norace
 func (t *Timer) Reset(d time.Duration) bool {
 	if t.rt != nil {
 		return t.rt.Reset(d)
